@@ -16,6 +16,7 @@ CONSTANTS MaxCircs,    \* circuit handles
           Acts,        \* enabled action names
           LinkTypes,   \* relation types explicit links may use
           MinEmit,     \* shortest history printed as a program
+          DeepRefs,    \* may an explicit relation refer to an operation nested inside a sub-circuit (not a direct entry)?
           EmitOneIn    \* print every history (1) or a random 1/EmitOneIn sample of them (seeded by TLC's -seed)
 VARIABLES heap, tops, sealed, env, next, hist
 
@@ -27,7 +28,9 @@ Fresh == [k \in 1..(4 * MaxObjs + 8) |-> Id(next + k - 1)]
 T(kind, qs, chans, dur, tag) == Leaf(kind, qs, chans, dur, tag, NoLink, None)
 
 Step(a, c, id, s, m, link, rep, key, val, what) ==
-  [a |-> a, c |-> c, id |-> id, s |-> s, m |-> m, link |-> link, rep |-> rep, key |-> key, val |-> val, what |-> what]
+  [a |-> a, c |-> c, id |-> id, s |-> s, m |-> m, link |-> link, rep |-> rep, key |-> key, val |-> val, what |-> what, fm |-> <<>>]
+\* copies: which generated identifier is the copy of which (lets later steps refer to operations inside a nested copy)
+FMap(src, f) == [j \in 1..Len(src) |-> <<src[j], f[src[j]]>>]
 NoM == T("", <<>>, <<>>, <<"fixed", 0>>, "")
 
 Init == /\ heap = <<>> /\ tops = {} /\ sealed = {} /\ env = InitEnv /\ next = 1 /\ hist = <<>>
@@ -35,6 +38,8 @@ Init == /\ heap = <<>> /\ tops = {} /\ sealed = {} /\ env = InitEnv /\ next = 1 
 Open == tops \ sealed
 \* objects the caller holds a handle on (returned by add); only those can be referred to by a later relation
 Handles == {hist[j].id : j \in {k \in 1..Len(hist) : hist[k].a \in {"AddOp", "AddSub"}}}
+             \cup UNION {{hist[j].fm[n][2] : n \in 1..Len(hist[j].fm)} : j \in 1..Len(hist)}
+RefsIn(c) == IF DeepRefs THEN Subtree(heap, c) \ {c} ELSE Range(heap[c].kids)
 EnvActs == {"SetDur", "SetRep", "Enter", "Leave"}
 EnvBudget == Cardinality({j \in 1..Len(hist) : hist[j].a \in EnvActs}) < 3
 ObsBudget == Cardinality({j \in 1..Len(hist) : hist[j].a = "Obs"}) < 2
@@ -52,7 +57,7 @@ NewCircuit ==
 AddOp ==
   /\ "AddOp" \in Acts /\ CanStep /\ Cardinality(DOMAIN heap) < MaxObjs
   /\ \E c \in Open, m \in Menu :
-     \E given \in {NoLink} \cup {OneLink(r, t) : r \in Handles \cap Range(heap[c].kids), t \in LinkTypes} :
+     \E given \in {NoLink} \cup {OneLink(r, t) : r \in Handles \cap RefsIn(c), t \in LinkTypes} :
      \E link \in AllowedLinks(heap, c, Range(m.chans), given) :
        /\ heap' = DoAddOp(heap, c, Id(next), m, link)
        /\ next' = next + 1
@@ -68,7 +73,7 @@ AddSub ==
           IN \E link \in AllowedLinks(heap, c, ChansOf(heap, s), heap[s].link) :
                /\ heap' = DoAddSub(heap, c, s, f, link)
                /\ next' = next + Len(src)
-               /\ hist' = Append(hist, Step("AddSub", c, f[s], s, NoM, heap[s].link, heap[s].rep, "", 0, ""))
+               /\ hist' = Append(hist, [Step("AddSub", c, f[s], s, NoM, heap[s].link, heap[s].rep, "", 0, "") EXCEPT !.fm = FMap(src, f)])
        /\ UNCHANGED <<tops, sealed, env>>
 
 CopyCirc ==
@@ -81,7 +86,7 @@ CopyCirc ==
              /\ tops' = tops \cup {f[s]}
              /\ sealed' = IF s \in sealed THEN sealed \cup {f[s]} ELSE sealed
              /\ next' = next + Len(src)
-             /\ hist' = Append(hist, Step("CopyCirc", f[s], f[s], s, NoM, NoLink, <<"fixed", 1>>, "", 0, ""))
+             /\ hist' = Append(hist, [Step("CopyCirc", f[s], f[s], s, NoM, NoLink, <<"fixed", 1>>, "", 0, "") EXCEPT !.fm = FMap(src, f)])
        /\ UNCHANGED env
 
 Apply ==
